@@ -143,7 +143,7 @@ def run(prop, tier, seed, only_replay=None):
                     inputs=[sx.dumps(x) for x in c.get("inputs", ["null"])],
                     expected_model=sx.dumps(d["model"]) if d["model"] is not None else None,
                     actual=sx.dumps(d["impl"]) if d["impl"] is not None else None,
-                    how_to_run="./jv replay <this file>"))
+                    how_to_run="./jv replay <this file>"), found_input=not d.get("noinput"))
     if proofs is not None and not proofs["ok"]:
         # a proof obligation or the audit broke; if nothing concrete was found above, say so
         if not reported:
